@@ -225,6 +225,34 @@ def mk_transitions(spec, objs, style):
     return out
 
 
+def group_transitions(ts, rng):
+    """the same transitions, in the same order, combined with the `|` operator in every association shape: `a | b | c`,
+    `a | (b | c)`, `(a | b) | (c | d)`; a machine built from the groups denotes the same configuration (candidates in listed order).
+    (Fifth-round seeded change C19-C made `transition | group` put the lone transition LAST.)"""
+    def join(chunk):
+        if len(chunk) == 1:
+            return chunk[0]
+        shape = rng.randrange(3)
+        if shape == 0:                                   # left-associated
+            g = chunk[0]
+            for t in chunk[1:]:
+                g = g | t
+            return g
+        if shape == 1:                                   # right-associated: a | (b | (c | d))
+            g = chunk[-1]
+            for t in reversed(chunk[:-1]):
+                g = t | g
+            return g
+        k = rng.randrange(1, len(chunk))                 # two halves
+        return join(chunk[:k]) | join(chunk[k:])
+    out, i = [], 0
+    while i < len(ts):
+        n = rng.choice([1, 2, 3, 3, 4])
+        out.append(join(ts[i:i + n]))
+        i += n
+    return out
+
+
 def mk_root(spec):
     from xstate_statemachine.pythonic import State
     r = spec["root"]
@@ -336,6 +364,25 @@ def spec_case(args):
             out.append((label, exp, "%s: %s" % (type(exc).__name__, str(exc)[:200])))
     attempt("functional", lambda: build_functional(spec))
     attempt("class", lambda: build_class(spec))
+
+    def grouped(style):
+        from xstate_statemachine.pythonic import build_machine, StateMachine, _StateMachineMeta
+        tops, objs = mk_states(spec)
+        groups = group_transitions(mk_transitions(spec, objs, "to" if style == "class" else "mixed"), random.Random(seed + 17))
+        if style == "functional":
+            return build_machine(id=spec["id"], states=tops, transitions=groups, context=copy.deepcopy(spec["context"]), root=mk_root(spec))
+        ns = {"machine_id": spec["id"], "initial_context": copy.deepcopy(spec["context"])}
+        for o in tops:
+            ns["st_" + o.name] = o
+        for i, t in enumerate(groups):
+            ns["tr_%d" % i] = t
+        r = mk_root(spec)
+        if r is not None:
+            ns["machine_root"] = r
+        return _StateMachineMeta("Gen", (StateMachine,), ns).create_machine()
+    if len(spec["transitions"]) > 1:
+        attempt("functional-grouped-with-|", lambda: grouped("functional"))
+        attempt("class-grouped-with-|", lambda: grouped("class"))
     if builder_expressible(spec):
         holder = {}
 
